@@ -295,16 +295,18 @@ class SqliteDB(object):
 
         @return: (string) or (None) if entry not found
         """
-        if task_id in self._cache:
-            return self._cache[task_id].get(dependency, None)
-        else:
-            data = self._cache[task_id] = self._get_task_data(task_id)
-            return data.get(dependency, None)
+        if task_id not in self._cache:
+            data = self._get_task_data(task_id)
+            if data is None:
+                # do not cache a miss, `in_` checks the cache
+                return None
+            self._cache[task_id] = data
+        return self._cache[task_id].get(dependency, None)
 
     def _get_task_data(self, task_id):
         data = self._conn.execute('select task_data from doit where task_id=?',
                                   (task_id,)).fetchone()
-        return data['task_data'] if data else {}
+        return data['task_data'] if data else None
 
     def set(self, task_id, dependency, value):
         """Store value in the DB."""
